@@ -346,5 +346,16 @@ func main() {
 	pair("schema_columns", columns)
 	w("(* non-unique indexes (no constraint; listed so that their disappearance is visible) *)\n")
 	ul("schema_plain_indexes", plainIndexes)
+	// durability settings of the connection pegnet.Init() opens (the default configuration, and with db.mode WAL)
+	var pragmas [][2]string
+	for _, name := range []string{"journal_mode", "synchronous", "locking_mode", "foreign_keys"} {
+		var v string
+		if err := db.QueryRow("PRAGMA " + name).Scan(&v); err != nil {
+			die("PRAGMA %s: %v", name, err)
+		}
+		pragmas = append(pragmas, [2]string{name, strings.ToLower(v)})
+	}
+	w("(* PRAGMA values of the connection pegnet.Init() opens with the default configuration *)\n")
+	pair("db_pragmas", pragmas)
 	os.Stdout.WriteString(b.String())
 }
